@@ -4,7 +4,7 @@
    lists at the same widths on every run. *)
 From Coq Require Import List NArith.
 From BpafModel Require Import Console.
-From BpafLemmas Require Import ConsoleLaws.
+From BpafLemmas Require Import ConsoleLaws WidthLaws.
 Import ListNotations.
 
 (* Content preservation: for EVERY document (any token list, any text), both forms, and ANY two
@@ -46,12 +46,63 @@ Theorem C13_skipping_ignores_text :
 Proof. exact skipping_ignores_text. Qed.
 Print Assumptions C13_skipping_ignores_text.
 
-(* FULL STATEMENT of the width clause (kept visible; decided by the oracle and the differential run):
-   for 40 <= w every output line has at most w + 2 characters unless it is a code line or what
-   follows its indentation / term is a single unbreakable word. *)
+(* The width clause.  FULL STATEMENT (kept visible; decided on the implementation's text by the oracle
+   and the differential run): for 40 <= w every output line has at most w + 2 characters unless it is
+   a code line or what follows its indentation / term is a single unbreakable word.
+   PROVED, for every width (not only >= 40), about every state the renderer passes through:
+   (1) the column counter the wrapping decision uses is never below the length of the line being
+       written (C13_column_dominates_line) -- so the decision is never taken on a stale column;
+   (2) placing a word or a separating space leaves a line of at most w + 2 characters, unless the
+       word starts at the margin (indentation, or the definition term padded to the tab stop, plus
+       the two-column gutter) -- i.e. it is the single word that follows the indentation / term --
+       or the line holds a preformatted code line (C13_width_word_partial);
+   (3) the states of (2) include every state of every rendering (C13_render_states_reachable).
+   NOT derived: the statement about the lines of the final text (a closed line is the current line
+   of the state in which the line break was pushed; back-quotes of term references are appended
+   without a width test, one character each). *)
+Theorem C13_column_dominates_line :
+  forall docgen full mw ts d k,
+    texts_ok d ->
+    let st := fold_left (token_step docgen full mw ts) (firstn k d) init_cr in
+    (cur_len (rres st) <= char_pos st)%N.
+Proof. exact column_dominates_line. Qed.
+Print Assumptions C13_column_dominates_line.
+
+Theorem C13_width_word_partial :
+  forall mw st s,
+    Reach mw st ->
+    let st' := raw_step mw s (clen s) st in
+    (cur_len (rres st') <= mw + 2 \/
+     cur_len (rres st') <= cur_margin (margins st) + 2 + clen s \/
+     W_CODE <= char_pos st')%N.
+Proof. exact word_width. Qed.
+Print Assumptions C13_width_word_partial.
+
+Theorem C13_render_states_reachable :
+  forall docgen full mw d, texts_ok d -> Reach mw (render_state docgen full mw d).
+Proof. exact render_reach. Qed.
+Print Assumptions C13_render_states_reachable.
+
+(* every text the splitter is given yields chunks whose width is at least their length *)
+Theorem C13_splitter_chunks :
+  forall docgen s, (clen s <= W_CODE)%N -> Forall chunk_ok (split docgen s).
+Proof. exact split_ok. Qed.
+Print Assumptions C13_splitter_chunks.
 
 Example C13_example :
   let d := [CStart BBlock; CText SText [104;101;108;108;111;32;119;111;114;108;100]%N; CEnd BBlock] in
   render_console true true 5%N d = Some [104;101;108;108;111;10;119;111;114;108;100;10]%N /\
   render_console true true 100%N d = Some [104;101;108;108;111;32;119;111;114;108;100;10]%N.
 Proof. split; vm_compute; reflexivity. Qed.
+
+(* the premises are met by ordinary documents, and the three cases of the width theorem occur:
+   a word that fits, a word that wraps, a first word longer than the width *)
+Example C13_example_width :
+  let d := [CStart BBlock; CText SText [104;101;108;108;111;32;119;111;114;108;100]%N; CEnd BBlock] in
+  texts_ok d /\
+  render_console true true 8%N d = Some [104;101;108;108;111;10;119;111;114;108;100;10]%N /\
+  render_console true true 3%N d = Some [104;101;108;108;111;10;119;111;114;108;100;10]%N.
+Proof.
+  split; [|split; vm_compute; reflexivity].
+  intros sty s [H|[H|[H|[]]]]; inversion H; subst. vm_compute. discriminate.
+Qed.
